@@ -20,6 +20,10 @@ SBOUND = [0, 1, -1, 127, 128, -128, -129, 255, 256, 32767, 32768, -32768, -32769
 
 
 def enc(v):
+    if "uw" in v:
+        v = {"u": v["uw"]}
+    if "sw" in v:
+        v = {"s": v["sw"]}
     if "u" in v:
         return {"t": "u", "d": list(int(v["u"]).to_bytes(8, "little"))}
     if "s" in v:
@@ -57,8 +61,9 @@ def scn_from_mc(beh, k, cfgname):
     prefix, kind = beh["prefix"], beh["kind"]
     entries = []
     for e in beh["entries"]:
-        vals = {"u": {"u": UMAP[digits_to_int(e["u"], False)]},
-                "s": {"s": SMAP[digits_to_int(e["s"], True)]},
+        lazy = (k + len(entries)) % 3 == 0
+        vals = {"u": {"uw" if lazy else "u": UMAP[digits_to_int(e["u"], False)]},
+                "s": {"sw" if lazy else "s": SMAP[digits_to_int(e["s"], True)]},
                 "a": {"a": [0xFF if b else 0x00 for b in e["a"]]}}
         if e["v"] == 0:
             vals["y"] = {"u": UMAP[digits_to_int(e["y"], False)]}
@@ -77,9 +82,10 @@ def scn_from_mc(beh, k, cfgname):
 
 def rand_value(rng, typ, nentries, arr_pool):
     if typ == "uint":
-        return {"u": rng.choice(UBOUND) if rng.random() < 0.7 else rng.randrange(0, 1 << rng.choice([8, 16, 32, 64]))}
+        # eager (Value::Unsigned) or lazy (Value::UnsignedWord) form of the same value
+        return {rng.choice(["u", "u", "u", "uw"]): rng.choice(UBOUND) if rng.random() < 0.7 else rng.randrange(0, 1 << rng.choice([8, 16, 32, 64]))}
     if typ == "sint":
-        return {"s": rng.choice(SBOUND) if rng.random() < 0.7 else rng.randrange(-(1 << 40), 1 << 40)}
+        return {rng.choice(["s", "s", "sw"]): rng.choice(SBOUND) if rng.random() < 0.7 else rng.randrange(-(1 << 40), 1 << 40)}
     if typ == "content":
         return {"c": [rng.choice([0, 1, 1, 1, 255, 256, 65535]), rng.choice([0, 1, 255, 256, 65535, 65536, (1 << 24) - 1, 1 << 24, (1 << 32) - 1])]}
     if typ == "array":
@@ -154,7 +160,7 @@ def random_scn(rng, k, big=False, sorted_p=0.0, refs=False, types=("uint", "sint
             seen = set()
             uniq = []
             for e in entries:
-                kv = json.dumps(e["values"][key["name"]], sort_keys=True)
+                kv = json.dumps(enc(e["values"][key["name"]]), sort_keys=True)     # the value, whatever its form (eager / lazy)
                 if kv in seen:
                     continue
                 seen.add(kv)
@@ -189,9 +195,12 @@ def directed_scns(tier):
     for i, (a, b) in enumerate([(5, 200), (-200, 3), (127, -128), (128, 0), (-129, 0), (32767, -32768), (32768, -1),
                                 ((1 << 63) - 1, -(1 << 63)), (-1, -2), (-1, -129), (0, 0), (-5, -5)]):
         simple("sint%d" % i, [{"name": "z", "type": "sint"}], [{"values": {"z": {"s": a}}}, {"values": {"z": {"s": b}}}])
+        simple("sintw%d" % i, [{"name": "z", "type": "sint"}], [{"values": {"z": {"sw": a}}}, {"values": {"z": {"sw": b}}}])
+        simple("sintm%d" % i, [{"name": "z", "type": "sint"}], [{"values": {"z": {"s": a}}}, {"values": {"z": {"sw": b}}}, {"values": {"z": {"sw": 1}}}])
     # unsigned width boundaries
     for i, v in enumerate([255, 256, 65535, 65536, (1 << 56) - 1, 1 << 56, U64]):
         simple("uint%d" % i, [{"name": "n", "type": "uint"}], [{"values": {"n": {"u": v}}}, {"values": {"n": {"u": 0}}}])
+        simple("uintw%d" % i, [{"name": "n", "type": "uint"}], [{"values": {"n": {"uw": v}}}, {"values": {"n": {"u": 0}}}])
     # variant whose last column is constant while the variant is the largest (F3)
     v2 = [{"name": "A", "props": [{"name": "y", "type": "uint"}, {"name": "x", "type": "uint"}]}, {"name": "B", "props": []}]
     simple("varconst", [{"name": "n", "type": "uint"}],
